@@ -503,7 +503,11 @@ func zzGenBuf(t *zzT, name string, maxN int) []byte {
 			}
 			// C08: round trip
 			h8 := fmt.Sprintf("zzH_C08_rt_%s", ct.Name)
-			fmt.Fprintf(sb, "// %s: Decode(Encode(v)) == v, Encode deterministic, strict decoding accepts own encoding, re-encoding is idempotent.\n//zz:opt loop=200\nfunc %s(t *zzT) {\n", h8, h8)
+			bud := ""
+			if countSites(ct, types, 0) > 10 {
+				bud = "//zz:quick budget=400s\n//zz:thorough budget=40m\n"
+			}
+			fmt.Fprintf(sb, "// %s: Decode(Encode(v)) == v, Encode deterministic, strict decoding accepts own encoding, re-encoding is idempotent.\n//zz:opt loop=200\n%sfunc %s(t *zzT) {\n", h8, bud, h8)
 			sites := countSites(ct, types, 0)
 			if sites <= 4 {
 				sb.WriteString("\tzzPat, zzSite = -1, 0\n")
